@@ -50,7 +50,7 @@ CHECKS = {
             "200 thorough), not proved (in Coq run is a function). The full split_transparent needs parametric programs (in the model an "
             "event is a number an arbitrary automaton could branch on; a numeric horizon shifts later ids); for arbitrary automata the "
             "_partial and _events_steps theorems are what is proved. env.peek() inside a process during run(until=number) sees the "
-            "sentinel (excluded). Repair: bd0bcc6.",
+            "sentinel (excluded). Repair: bd0bcc6. The rerun checks also use the plugins C06, C07, C16, C18, C19 and the parts route/gensink as scenario sources, programs that seed the random module themselves, big-integer clocks, and a split plan of a seeded network scenario compared with its single run; Environment.run is tied by translation (C03_gen_run).",
             "DESIGN.md section 4 C03, section 8"),
     "C04": ("34 theorems (Props/C04.v) about call_interrupt/do_interruption/resume_loop/run_callbacks/step of Kernel/Model.v, for all code "
             "tables and all states reachable by module-level code, run() preludes and clean steps: interrupt on a dead process "
@@ -127,7 +127,7 @@ CHECKS = {
             "one Environment and the heapq transcription against CPython's heapq.",
             "Full after 5 fix: commits (438d379, d1c8660, 69e89c0, 42d7aff, d0d3d61). Float rounding outside (85% of WFQ cases and all "
             "VC cases are exact by construction, the rest compare vtime/stamps within 1e-9 with order/timing exact). 'The scheduler "
-            "empties' is read as: run() resumes after a transmission and finds nothing held.",
+            "empties' is read as: run() resumes after a transmission and finds nothing held. WFQ.run and VirtualClock.run are tied by translation (C14_gen_wfq_run_*, C14_gen_vc_run_*).",
             "DESIGN.md section 4 C14, section 8"),
     "C15": ("RR/WRR (Props/C15_RR.v, 6 theorems): the whole visit sequence conforms to the cyclic walk over the classes in declaration order "
             "with the per-visit allowance (1 resp. up to weight), a class is skipped only if it holds nothing, transmission starts follow "
@@ -137,7 +137,7 @@ CHECKS = {
             "|S_i/Q_i - S_j/Q_j| < 4 + 3*Lmax*(1/Q_i + 1/Q_j) over any period in which both classes stay backlogged — proved in full. "
             "All weight tables, rates > 0, all admissible executions; 360 (quick) / 9000 (thorough) replayed executions per run.",
             "Full. DRR reading of 'the class's queue empties': class_count == 0 when run() resumes after a transmission. Sizes > 0. "
-            "Repair: b2bc02b.",
+            "Repair: b2bc02b. RR.run, WRR.run (nested fixes over the rest of the tables) and DRR.run (one generated pass iterated with fuel; a simulation up to == on the deficits) are tied by translation.",
             "DESIGN.md section 4 C15, section 8"),
     "C06": ("15 theorems (C06_users_le_capacity, queue_sorted, rank_meaning, grant_is_head, no_overtaking, free_slot_has_release, "
             "no_idle_slot_at_advance, release_idempotent, release_twice, preempt_call, victim_is_worst_ranked, preempt_request, "
@@ -151,7 +151,7 @@ CHECKS = {
             "or awaits at most one request; cancel/with-exit by the owner and not repeated; an ended process issues nothing. Monitor "
             "only (not in Coq): delivery of the Interruption into the victim's generator (C04) and the `resource` field of Preempted. "
             "That the kernel empties the instant before advancing is C01 and is checked as admissibility of every observed run. One "
-            "defect repaired (ffa1b36: preempting a user whose process has ended raised and stranded the preemptor).",
+            "defect repaired (ffa1b36: preempting a user whose process has ended raised and stranded the preemptor). BaseResource._trigger_put/_trigger_get (one generated iteration, fuel 1 + queue length proved sufficient), Put/Get.__init__, cancel, __exit__, Release, PriorityRequest and SortedQueue.append are tied by translation (C06_gen_trigger_put, ...).",
             "DESIGN.md section 4 C06, section 8"),
     "C07": ("30 theorems (C07_level_bounds, level_conservation, *store_bounded, delivered_exactly_once_*, triggered_at_most_once, "
             "store_fifo, prio_store_min, filter_store_first_match, puts_fcfs, gets_fcfs, filter_overtake_only_nonmatching, "
@@ -164,7 +164,7 @@ CHECKS = {
             "capacity > 0 or infinite as the constructors enforce; integer priority keys; which of two equal-priority items leaves first is reproduced by the model (heap arrays compared) "
             "but is not a theorem. Trusted: the kernel does not advance the clock past a triggered unprocessed event (C01; checked per "
             "observed run). Defects repaired: e27f019 (cancel of a blocking head request did not rescan) and the fractional store "
-            "capacity guard (see known_findings.json).",
+            "capacity guard (see known_findings.json). The scan loops of the base class and FilterStore._do_get are tied by translation (C07_gen_trigger_put/_get, C07_gen_filter_do_get); compared runs include exact-typed amounts (ints above 2**53, Fractions).",
             "DESIGN.md section 4 C07, section 8"),
     "C09": ("23 theorems of Props/C09.v (departure recurrence incl. rate 0 and FIFO, tail-drop iff in byte and packet mode, occupancy bound, "
             "counters, exact byte occupancy, per-hop stamps, PortMonitor samples, never-late / work-conserving, RED EWMA recurrence and the "
@@ -197,7 +197,7 @@ CHECKS = {
             "Full, with this reading of 'waiting at that instant': the kernel orders occurrences inside an instant; the scheduler commits "
             "at the dequeue (store.get granted); a higher-priority packet put between that dequeue and the start of the transmission "
             "process in the same instant is not displaced (non-preemptive). Defect repaired: /repo 0e96376 (SP served one packet per "
-            "class per pass).",
+            "class per pass). SP.run's scan (restart after every transmission, descending priority order from SP.__init__'s sort) is tied by translation against sp_find (C13_gen_sp_run_*).",
             "DESIGN.md section 4 C13, section 8"),
     "C16": ("26 theorems: the ACK is the contiguous received prefix and monotone for every arrival sequence (C16_ack_is_prefix, "
             "C16_ack_monotone, refutation of the pinned ACK choice); the repaired sender never raises for every Ack/Expire/StoreCb/Wake "
@@ -237,7 +237,7 @@ CHECKS = {
             "RTT estimator) and timeout_callback (C17_gen_sender_put, C17_gen_sender_timeout). Float-valued fields are compared within a relative 1e-12 per "
             "transition from the observed pre-state; theorems are over Q. The translator (props/tcp_common.translate_cc) is part of the "
             "trusted base of this property; a harmless rewrite of a translated method makes the bridging obligations fail "
-            "(reported no-failing-input-found). Repair: eae436e.",
+            "(reported no-failing-input-found). Repair: eae436e. Since round 6 the Flow's application process (arrival_dist, size_dist, start/finish times) is modelled as a layer around the sender step (Tcp/AppSender.v) with C17_app_send_guard, C17_app_window_respected, C17_app_buffer_respected, C17_app_partial_tail_waits and C17_app_plain_is_on_wake (without an application configured the layer IS on_wake, so the earlier theorems and C16's loop are about the same run()); TCPPacketGenerator.run, put, timeout_callback and resend_packet are tied by translation. Behaviour outside C17's text: less than one MSS of buffered data is never sent and stops the fetch loop for good.",
             "DESIGN.md section 4 C17, section 8"),
     "C18": ("22 theorems (Props/C18.v): FlowDemux/FIBDemux rules (empty table and no outputs included), exactly one output, switches route "
             "by these rules; a hub repeats to all attached endpoints but the sender exactly once, through the port device when given; a "
@@ -267,7 +267,7 @@ CHECKS = {
             "already-fired one-shot does not re-arm (unspecified by C19; proved as C19_expired_one_shot_never_refires). Timer.stop / "
             "Timer.restart (with the helper _arm inlined) are translated from /repo on every run and proved equal to the model's "
             "do_stop / do_restart (C19_gen_timer_stop, C19_gen_timer_restart; _arm's float-rounding substitution is proved dead in "
-            "exact arithmetic). Repairs: f3ce555, 4f3b0bd, ca556aa, 4170594.",
+            "exact arithmetic). Repairs: f3ce555, 4f3b0bd, ca556aa, 4170594. Timer.__init__ (argument normalisation: None / list or tuple / anything else is ONE argument, incl. str and bytes: C19_args_normalised, Elem/TimerArgs.v) and the generator Timer.run are tied by translation as well; compared runs use arguments of every shape.",
             "DESIGN.md section 4 C19, section 8"),
     "C20": ("C20_same_events (for every kernel state type and step function the real-time run performs exactly the plain run's steps), "
             "C20_never_early, C20_sleeps_exact, C20_strict_iff, C20_nonstrict_never_raises, C20_proceeds_when_reached: proved for ALL "
